@@ -177,7 +177,8 @@ func regexCompare(field string, value string) (CompareFunc, error) {
 	if _, err := regexp.Compile(body); err != nil {
 		return nil, fmt.Errorf("regex failed to compile: %s", body)
 	}
-	re, err := regexp.Compile("^" + body + "$")
+	// anchor the whole pattern, not just its first and last alternative
+	re, err := regexp.Compile("^(?:" + body + ")$")
 	if err != nil {
 		return nil, fmt.Errorf("regex failed to compile: %s", body)
 	}
